@@ -460,6 +460,59 @@ def concurrent_objects(res, rng, dumps):
                 return
 
 
+def threaded_objects(res, rng, dumps):
+    """The same on OS threads: every thread lists its own dump with its own front-end object (plain and coloured), all at
+    the same time with the interpreter switching threads every few bytecodes; lines are taken one by one and only the
+    text is kept.  Every thread prints what a single-threaded run prints."""
+    import sys
+    import threading
+    cfg = {'show_timestamp': True, 'show_tid': True, 'show_process': True}
+    jobs = [(d, method, color) for d in dumps for method, color in
+            (('formatted_traces', False), ('formatted_traces', True), ('formatted_kevents', False), ('formatted_callstacks', False))]
+    try:
+        alone = [list(getattr(front(cfg, color=c), m)(io.BytesIO(d['data']))) for d, m, c in jobs]
+    except Exception as x:
+        res.violation(f'c14-raises-{core.exc_name(x)}', f'{x!r}', {'files': [d['data'] for d in dumps]})
+        return
+    failures = []
+    barrier = threading.Barrier(len(jobs))
+
+    def worker(i):
+        d, m, c = jobs[i]
+        try:
+            barrier.wait(timeout=30)
+            for _ in range(2):
+                got = []
+                for line in getattr(front(cfg, color=c), m)(io.BytesIO(d['data'])):
+                    got.append(line)
+                if got != alone[i]:
+                    k = next((j for j, (a, b) in enumerate(zip(got, alone[i])) if a != b), min(len(got), len(alone[i])))
+                    failures.append(f'{m}{" (coloured)" if c else ""}: line {k} reads {got[k] if k < len(got) else None!r}, '
+                                    f'single-threaded {alone[i][k] if k < len(alone[i]) else None!r}')
+                    return
+        except Exception as x:                                          # noqa
+            failures.append(f'{m}: raised {x!r} at {core.short_tb(x)}')
+
+    threads = [threading.Thread(target=worker, args=(i,), daemon=True) for i in range(len(jobs))]
+    old = sys.getswitchinterval()
+    sys.setswitchinterval(1e-6)
+    try:
+        for t in threads:
+            t.start()
+        for t in threads:
+            t.join(timeout=300)
+    finally:
+        sys.setswitchinterval(old)
+    if any(t.is_alive() for t in threads):
+        res.inconclusive.append('concurrent listings did not finish within the watchdog')
+        return
+    res.count('listings_by_concurrent_threads', len(jobs) * 2)
+    if failures:
+        res.violation('c14-differs-between-concurrent-threads', f'{len(jobs)} OS threads, each listing its own dump with its '
+                      f'own front-end object: {failures[0]} ({len(failures)} listing(s) affected)',
+                      {'files': [d['data'] for d in dumps]})
+
+
 def cli_equals_api(res, rng, dump):
     """The command line prints exactly the lines the library formats under the same switches (every listing command,
     thread-id column on and off, colour on and off for traces)."""
@@ -560,6 +613,8 @@ def run(ctx):
             cli_equals_api(res, rng, dump)
         if prev_dump is not None and i % 2:
             concurrent_objects(res, rng, [prev_dump, dump])
+            if i % 4 == 1:
+                threaded_objects(res, rng, [prev_dump, dump])
         prev_dump = dump
         res.count('dumps')
     if ctx.shard == 0:
@@ -584,6 +639,7 @@ def run(ctx):
     res.require('compositions_under_event_filters', 10)
     res.require('cli_listings_compared', 12)
     res.require('concurrent_object_listings', 6)
+    res.require('listings_by_concurrent_threads', 16)
     res.require('callstacks_of_threads_remapped_or_renamed_earlier', 1)
     res.require('callstacks_of_threads_renamed_under_the_same_pid', 1)
     return res
